@@ -25,7 +25,9 @@ open Ural.Py Ural.Py.Re
 
 /-- Python exceptions as values -/
 inductive Err where
-  | indexError | keyError | valueError | typeError | attributeError | recursionError
+  | indexError | keyError | valueError | typeError | attributeError
+  /-- not a Python exception: a `while True` loop of the code that would not leave (shown unreachable) -/
+  | nonTermination
 deriving DecidableEq, Repr
 
 /-- equality of results is decidable (for the `decide`d examples); scoped to this namespace -/
